@@ -22,6 +22,8 @@ struct Case {
     rules: Vec<String>,
     lex_names: Vec<String>,
     param: bool,
+    /// lexer flags given through the builder (not the %grmtools section)
+    lflags: Vec<(&'static str, bool)>,
 }
 
 fn observer_action(pidx: usize, rhs: &[Sym]) -> String {
@@ -126,6 +128,7 @@ fn mk(name: &str, g: &RefGrammar, kind: &'static str, recoverer: &'static str, m
         rules: (0..g.nrules()).map(|r| g.rule_name(r)).collect(),
         lex_names: (0..g.ntoks).filter(|t| g.rules.iter().flatten().flatten().any(|s| *s == Sym::T(*t))).map(|t| g.tok_name(t)).collect(),
         param: false,
+        lflags: vec![],
     }
 }
 
@@ -208,10 +211,24 @@ fn main() {
     {
         let y = "%grmtools{yacckind: Original(GenericParseTree)}\n%start S\n%expect-unused Unmatched 'UNMATCHED'\n%%\nS: | S T;\nT: 'A' | 'É' | 'OPEN' S 'CLOSE';\nUnmatched: 'UNMATCHED';\n".to_string();
         let l = "%grmtools{case_insensitive, !dot_matches_new_line}\n%x C\n%%\n<INITIAL,C>a 'A'\né 'É'\n\\( <+C>'OPEN'\n<C>\\) <-C>'CLOSE'\n<C>[ ]+ ;\n[ \\n]+ ;\n<INITIAL,C>. 'UNMATCHED'\n".to_string();
-        cases.push(Case { name: "lexer_states".into(), y, l, kind: "gpt", recoverer: "cpctplus", ser: None, edition: "2021", vis: "private", alphabet: "aAé() \n".into(), maxlen: 4, rules: vec!["S".into(), "T".into()], lex_names: vec!["A".into(), "OPEN".into(), "CLOSE".into()], param: false });
+        cases.push(Case { name: "lexer_states".into(), y, l, kind: "gpt", recoverer: "cpctplus", ser: None, edition: "2021", vis: "private", alphabet: "aAé() \n".into(), maxlen: 4, rules: vec!["S".into(), "T".into()], lex_names: vec!["A".into(), "OPEN".into(), "CLOSE".into()], param: false, lflags: vec![] });
     }
 
-    let mut code = String::from("pub mod cases {\n#![allow(unused, clippy::all, deprecated)]\nuse lrpar::{Lexeme, LexParseError, NonStreamingLexer};\nuse lrlex::{DefaultLexerTypes, DefaultLexeme};\npub struct CaseInfo { pub name: &'static str, pub y: &'static str, pub l: &'static str, pub kind: &'static str, pub recoverer: &'static str, pub alphabet: &'static str, pub maxlen: usize, pub param: bool, pub lexerdef: fn() -> lrlex::LRNonStreamingLexerDef<DefaultLexerTypes<u32>>, pub parse: for<'a, 'b> fn(&'a dyn NonStreamingLexer<'b, DefaultLexerTypes<u32>>) -> (Option<String>, Vec<LexParseError<u32, DefaultLexerTypes<u32>>>), pub token_epp: fn(cfgrammar::TIdx<u32>) -> Option<&'static str>, pub rule_consts: &'static [(&'static str, u32)], pub tok_consts: &'static [(&'static str, u32)], pub generated: &'static str }\n");
+    // (d) every lexer flag, once through the %grmtools section and once through the builder
+    {
+        let y = "%grmtools{yacckind: Original(GenericParseTree)}\n%start S\n%%\nS: | S T;\nT: 'A' | 'B' | 'W' | 'C' | 'E' | 'U' | 'D';\n".to_string();
+        let rules = "a 'A'\n^b 'B'\n\\b 'W'\nc+? 'C'\nd e 'E'\n\\w 'U'\n. 'D'\n";
+        let flags: [(&'static str, bool); 7] = [("case_insensitive", true), ("dot_matches_new_line", false), ("multi_line", false), ("posix_escapes", true), ("swap_greed", true), ("ignore_whitespace", true), ("allow_wholeline_comments", true)];
+        for (f, v) in flags {
+            let body = if f == "allow_wholeline_comments" { format!("%%\n// a comment line\n{}", rules) } else { format!("%%\n{}", rules) };
+            let section = format!("%grmtools{{{}{}}}\n{}", if v { "" } else { "!" }, f, body);
+            let mk2 = |name: String, l: String, lflags: Vec<(&'static str, bool)>| Case { name, y: y.clone(), l, kind: "gpt", recoverer: "none", ser: None, edition: "2021", vis: "private", alphabet: "aAb\n\u{8}cdeé ".into(), maxlen: 3, rules: vec!["S".into(), "T".into()], lex_names: vec!["A".into(), "B".into(), "W".into(), "C".into(), "E".into(), "U".into(), "D".into()], param: false, lflags };
+            cases.push(mk2(format!("lexflag_section_{}", f), section, vec![]));
+            cases.push(mk2(format!("lexflag_builder_{}", f), body.clone(), vec![(f, v)]));
+        }
+    }
+
+    let mut code = String::from("pub mod cases {\n#![allow(unused, clippy::all, deprecated)]\nuse lrpar::{Lexeme, LexParseError, NonStreamingLexer};\nuse lrlex::{DefaultLexerTypes, DefaultLexeme};\npub struct CaseInfo { pub name: &'static str, pub y: &'static str, pub l: &'static str, pub kind: &'static str, pub recoverer: &'static str, pub alphabet: &'static str, pub maxlen: usize, pub param: bool, pub lexerdef: fn() -> lrlex::LRNonStreamingLexerDef<DefaultLexerTypes<u32>>, pub parse: for<'a, 'b> fn(&'a dyn NonStreamingLexer<'b, DefaultLexerTypes<u32>>) -> (Option<String>, Vec<LexParseError<u32, DefaultLexerTypes<u32>>>), pub token_epp: fn(cfgrammar::TIdx<u32>) -> Option<&'static str>, pub lflags: &'static [(&'static str, bool)], pub rule_consts: &'static [(&'static str, u32)], pub tok_consts: &'static [(&'static str, u32)], pub generated: &'static str }\n");
     let mut infos = String::from("pub fn all() -> Vec<CaseInfo> { vec![\n");
     for (i, c) in cases.iter().enumerate() {
         let yp = out.join(format!("case{}.y", i));
@@ -266,8 +283,22 @@ fn main() {
             .output_path(&lo)
             .mod_name(lmod_static)
             .visibility(lvis(c.vis))
-            .rust_edition(led)
-            .build();
+            .rust_edition(led);
+        let mut lb = res;
+        for (f, v) in &c.lflags {
+            lb = match *f {
+                "case_insensitive" => lb.case_insensitive(*v),
+                "dot_matches_new_line" => lb.dot_matches_new_line(*v),
+                "multi_line" => lb.multi_line(*v),
+                "posix_escapes" => lb.posix_escapes(*v),
+                "swap_greed" => lb.swap_greed(*v),
+                "ignore_whitespace" => lb.ignore_whitespace(*v),
+                "unicode" => lb.unicode(*v),
+                "allow_wholeline_comments" => lb.allow_wholeline_comments(*v),
+                _ => lb,
+            };
+        }
+        let res = lb.build();
         if let Err(e) = res {
             panic!("ctrt build.rs: case {} ({}) failed to build: {}\n{}\n{}", i, c.name, e, c.y, c.l);
         }
@@ -298,8 +329,8 @@ fn main() {
         writeln!(code, "}}").ok();
         writeln!(
             infos,
-            "CaseInfo {{ name: {:?}, y: {:?}, l: {:?}, kind: {:?}, recoverer: {:?}, alphabet: {:?}, maxlen: {}, param: {}, lexerdef: case{i}::lexerdef, parse: case{i}::parse, token_epp: case{i}::token_epp, rule_consts: case{i}::RULE_CONSTS, tok_consts: case{i}::TOK_CONSTS, generated: include_str!(concat!(env!(\"OUT_DIR\"), \"/case{i}.y.rs\")) }},",
-            c.name, c.y, c.l, c.kind, c.recoverer, c.alphabet, c.maxlen, c.param, i = i
+            "CaseInfo {{ name: {:?}, y: {:?}, l: {:?}, kind: {:?}, recoverer: {:?}, alphabet: {:?}, maxlen: {}, param: {}, lflags: &{:?}, lexerdef: case{i}::lexerdef, parse: case{i}::parse, token_epp: case{i}::token_epp, rule_consts: case{i}::RULE_CONSTS, tok_consts: case{i}::TOK_CONSTS, generated: include_str!(concat!(env!(\"OUT_DIR\"), \"/case{i}.y.rs\")) }},",
+            c.name, c.y, c.l, c.kind, c.recoverer, c.alphabet, c.maxlen, c.param, c.lflags, i = i
         )
         .ok();
     }
